@@ -27,6 +27,22 @@ def payload(tag, n, compressible=False):
 _classes = {}
 
 
+def _brief(msg):
+    if not isinstance(msg, dict):
+        return repr(msg)[:80]
+    out = {}
+    for k, v in msg.items():
+        if k == 'entries':
+            out[k] = [(e[1], e[2]) for e in v]
+        elif k in ('data', 'command'):
+            out[k] = '<%d bytes>' % len(v)
+        elif k == 'serialized':
+            out[k] = None if v is None else ('<%d bytes>' % len(v[0]), v[1], v[2])
+        else:
+            out[k] = v
+    return out
+
+
 def get_classes():
     """Build the workload classes against the repository imported from REPO."""
     if _classes:
@@ -97,16 +113,22 @@ def get_classes():
     def send_wrapper(self, node, message):
         ok = orig_send(self, node, message)
         w = CTX.world
-        if w is not None and w.tap is not None:
-            w.tap.on_send(w.cur, node, message, ok)
+        if w is not None:
+            if w.tap is not None:
+                w.tap.on_send(w.cur, node, message, ok)
+            if w.verbose_from is not None and w.evno >= w.verbose_from:
+                print('      send h%d -> %s %s ok=%s' % (w.cur, node, _brief(message), ok))
         return ok
     TCPT.send = send_wrapper
     orig_recv = TCPT._onMessageReceived
 
     def recv_wrapper(self, node, message):
         w = CTX.world
-        if w is not None and w.tap is not None:
-            w.tap.on_recv(w.cur, node, message)
+        if w is not None:
+            if w.tap is not None:
+                w.tap.on_recv(w.cur, node, message)
+            if w.verbose_from is not None and w.evno >= w.verbose_from:
+                print('      recv h%d <- %s %s' % (w.cur, node, _brief(message)))
         return orig_recv(self, node, message)
     TCPT._onMessageReceived = recv_wrapper
     return _classes
